@@ -129,6 +129,7 @@ class StubWorld:
         a = zabs(r)
         c.assume(r != 0)
         c.assume(z3.Implies(a <= m.N, z3.Select(m.st.P, a)))
+        c.assume(a <= m.N + 1000)       # numbers of new nodes: some finite range above N
         c.assume(den.s(r) == want)
         c.assume(z3.And(self.lvl(r) >= lvl_lo, self.lvl(r) <= m.L))
         # level of a ghost is < L unless it is the terminal (ghosts are never 1)
